@@ -100,6 +100,14 @@ def run(ctx, idx):
 
         if inner is not None:
             verdict = classify_membership(inner, mvar_ok, libvar)
+        if verdict is None and inner is None:
+            # the predicate is written directly, `lib` being a loop variable or parameter of the enclosing code
+            cands = {n.id for n in ast.walk(cond) if isinstance(n, ast.Name)} - {tvar}
+            for cnd in sorted(cands):
+                v = classify_membership(cond, mvar_ok, cnd)
+                if v is not None:
+                    verdict, inner = v, cond
+                    break
         if verdict == "exact":
             ctx.hold("C19.a", con, K.rel(init), comp.lineno, "membership is exact: %s" % K.src(cond))
         elif verdict in ("bare-prefix", "substring"):
@@ -127,11 +135,26 @@ def run(ctx, idx):
         defs = [n for n in own_nodes(init.node) if isinstance(n, ast.Assign) and any(isinstance(x, ast.Name) and x.id == nm for x in n.targets)]
         src = " ".join(K.src(d.value) for d in defs)
         counted = ("Counter(" in src or ".count(" in src) and ("> 1" in src or ">= 2" in src or "!= 1" in src)
+        # the names counted must be the keys the lookup is built with
+        keyexprs = []
+        for dd in defs:
+            for c in ast.walk(dd.value):
+                if isinstance(c, ast.Call) and K.src(c.func) == "Counter" and c.args and isinstance(c.args[0], (ast.GeneratorExp, ast.ListComp)):
+                    g0 = c.args[0]
+                    keyexprs.append(K.src(g0.elt).replace(g0.generators[0].target.id + ".", "$.", 1) if isinstance(g0.generators[0].target, ast.Name) else K.src(g0.elt))
+        svv = stores[0].meta.get("value")
+        lookup_key = None
+        if isinstance(svv, ast.DictComp) and isinstance(svv.generators[0].target, ast.Name):
+            lookup_key = K.src(svv.key).replace(svv.generators[0].target.id + ".", "$.", 1)
+        if counted and keyexprs and lookup_key and not any(k == lookup_key for k in keyexprs):
+            counted = False
+            why = "duplicates are counted by `%s` but the lookup is keyed by `%s`: two classes with the same command name are not detected (and distinct commands can be rejected)" % (keyexprs[0].replace("$", "c"), lookup_key.replace("$", "c"))
+            continue
         truthy = [m for m, l in t.succ if l == "true"]
         if counted and truthy and all(cfg.must_pass_through(m, cfg.exit, set(raises)) for m in truthy) and all(cfg.dominates(t, s) for s in stores):
             ok = True
             why = "`if %s: raise` (names counted more than once) dominates the store of the lookup" % nm
-        elif not counted:
+        elif not counted and not why.startswith("duplicates are counted"):
             why = "the test `%s` in front of the raise is not computed from a count of command names > 1" % nm
     ctx.ob("C19.b", con, K.rel(init), stores[0].line, ok, why)
     # the lookup is built from the same filtered selection
